@@ -163,6 +163,8 @@ impl Prop for C02 {
                 r.start = s;
                 r.end = e;
                 r.threads = 2;
+                // heights spelled plainly, zero-padded (`printf %07d`) or with a leading plus sign
+                r.height_style = ((s.unwrap_or(1) + e.unwrap_or(0).min(1000)) % 3) as u8;
                 if cb == "csvdump" || cb == "opreturn" {
                     let whole = RunSpec::new(cb);
                     scn.runs = vec![whole, r];
@@ -233,6 +235,7 @@ impl Prop for C02 {
             r.start = Some(s.max(1));
             r.end = Some(s.max(1) + rng.range(1, 9));
         }
+        r.height_style = *rng.pick(&[0u8, 0, 1, 2]);
         // the CLI accepts only start < end
         if let Some(e) = r.end {
             let eff = r.start.unwrap_or(0);
